@@ -8,7 +8,7 @@ TRUSTED = "Trusted base: TLC 1.8, the TLA+ value parser (harness/vcore/tlaval.py
 
 CHECKS = {
  "C10": dict(
-   technique="TLA+ state machine (spec/LinearCache.tla) model-checked by TLC; every edge of the permissive design's state graph replayed on the real classes against an uncached twin; recorded histories validated by TLC (TraceLinearCache.tla); histories of Linear objects recorded while the repository's own test-suite runs are validated by the same trace specification",
+   technique="TLA+ state machine (spec/LinearCache.tla) model-checked by TLC; every edge of the permissive design's state graph replayed on the real classes against an uncached twin; recorded histories validated by TLC (TraceLinearCache.tla); histories of Linear objects recorded while the repository's own test-suite runs are validated by the same trace specification; the failing history TLC derives for each broken design (eight design switches) is replayed on every real class",
    text="TLC exhausts the abstract cache life-cycle (parameter versions abstracted to current/stale, so all history lengths are covered) for the three class shapes and proves transparency of the repaired design; it also derives the failing histories of designs without invalidation. Every transition of the permissive state graph is then executed on LULinear, QRLinear, SVDLinear, NaiveLinear and OneByOneConvolution and compared with a freshly built uncached twin (outputs, log-dets, input gradients); all recorded histories are accepted by the trace specification.",
    design_ref="DESIGN.md section 4, C10",
    note="Abstraction of parameter values to versions; oracle is the uncached twin of the same tree. " + TRUSTED),
@@ -24,7 +24,7 @@ CHECKS = {
    design_ref="DESIGN.md section 4, C14",
    note="Reference model = documented behaviour (the property's own quantifier); variance kind not fixed. " + TRUSTED),
  "C15": dict(
-   technique="TLA+ session specification (spec/Session.tla) with SaveLoadFresh action; TLC-generated histories replayed on every zoo model, reload into a model built under another seed, steps judged by TLC trace validation",
+   technique="TLA+ session specification (spec/Session.tla) with SaveLoadFresh action; TLC-generated histories replayed on every zoo model, reload into a model built under another seed, steps judged by TLC trace validation; TLA+ specification of checkpoint protocols (spec/Reload.tla) model-checked by TLC with two design switches, every protocol TLC enumerates executed on the zoo models",
    text="Histories before saving (fresh, optimiser steps, data-dependent initialisation, batch-norm passes) are paths of the Session state graph; at every SaveLoadFresh a fresh model of the same configuration is built under a different seed, loaded, and compared bit for bit (forward, inverse, log_prob, transform_to_noise, fixed-seed sample). TLC judges the recorded traces.",
    design_ref="DESIGN.md section 4, C15",
    note="Function equality is sampled on probe inputs (bit-identical); configurations are those of the zoo. " + TRUSTED),
@@ -76,7 +76,7 @@ CHECKS = {
    note="Outcome classes only (values are C01/C02). " + TRUSTED),
 
  "C11": dict(
-   technique="Exact rational TLA+ model of the LU / QR / SVD / naive / Householder parameterisations (spec/LinAlg.tla over RatLin.tla, Rat.tla) model-checked by TLC; every parameter state loaded into the real classes and all accessors compared with each other and with the exact matrices",
+   technique="Exact rational TLA+ model of the LU / QR / SVD / naive / Householder parameterisations (spec/LinAlg.tla over RatLin.tla, Rat.tla) model-checked by TLC; every parameter state loaded into the real classes and all accessors compared with each other and with the exact matrices; accessors compared with the passes again after the failing histories TLC derives from spec/LinearCache.tla for broken cache designs",
    text="TLC proves W W^-1 = I, |det W| = product of the diagonal parameters, orthogonality of Householder products and usability / pairwise cancellation of the initial Householder vectors for feature counts 1..3 and counts up to 7 (9). Each state is loaded into the real class (pre-images of softplus / exp, integer Householder vectors also rescaled by 1e-4 and 1e3): weight(), weight_inverse(), logabsdet(), the two combined accessors, matrix(), forward and inverse must be mutually consistent (self-checking) and equal to the exact model; default and random initialisations for 1..4 features must be finite and invertible.",
    design_ref="DESIGN.md section 4, C11",
    note="Feature counts <= 3 on the lattice (cofactor determinant); float64. " + TRUSTED),
@@ -93,7 +93,7 @@ CHECKS = {
    note="Tolerances are the implementation's declared constants on the paths that use them; off-lattice floating-point cancellation is only sampled by the zoo sweep. " + TRUSTED),
 
  "C19": dict(
-   technique="Exact rational lattice of spec/Spline.tla (model-checked by TLC) as the common reference of both precisions; every lattice case and every zoo model evaluated as a float32 model and a float64 twin",
+   technique="Exact rational lattice of spec/Spline.tla (model-checked by TLC) as the common reference of both precisions; every lattice case and every zoo model evaluated as a float32 model and a float64 twin; the checkpoint protocols of spec/Reload.tla that end in a dtype conversion executed on the zoo models",
    text="Lattice cases (knots, end points, tail junctions - where discriminants vanish) run in float32 and float64 in both directions: no exception, finite, input dtype preserved, float32 within single-precision accuracy (scaled by the exact slope) of float64 and of the exact rational value. Every zoo transform / distribution / flow is evaluated as a float32 model and a float64 twin with the same state dict on generic, x4-scaled, offset and +-15 grid inputs (evaluation mode, both directions) and on offset narrow batches in training mode for batch-statistics layers.",
    design_ref="DESIGN.md section 4, C19",
    note="Off-lattice floating-point cancellation is sampled, not searched; UMNN skipped (float32 internals); ill-conditioned compositions (sigmoid -> CDF -> logit) only at generic points. " + TRUSTED),
